@@ -24,6 +24,7 @@ package main
 import (
 	"context"
 	"encoding/json"
+	"errors"
 	"fmt"
 	"runtime"
 	"sort"
@@ -98,6 +99,8 @@ func runPacketID(raw json.RawMessage) interface{} {
 		pidResup(&sc, res)
 	case "wfail":
 		pidWriteFail(&sc, res)
+	case "retx":
+		pidRetx(&sc, res)
 	default:
 		res.Infra = "unknown kind " + sc.Kind
 	}
@@ -621,6 +624,85 @@ func pidWriteFail(sc *pidScenario, res *pidResult) {
 	cancel()
 	cli.Close()
 	wg.Wait()
+}
+
+// pidRetx: a Publish (identifier preset by the caller: Script[0].Sup, or chosen by the library: 0) whose acknowledgement
+// does not come before its context expires, on a connection that stays open; then the same message is sent again ON
+// THE SAME CLIENT -- through the retry handle of the error (Via "handle") or by publishing the message, which now
+// carries its identifier, once more (Via "republish").  The identifier is the caller's from then on: rows of Reqs are
+// <<identifier the message carried before the call, identifier on the PUBLISH, identifier on the PUBREL>>.
+func pidRetx(sc *pidScenario, res *pidResult) {
+	w := netsim.NewWorld(netsim.Plan{Writes: []netsim.FaultRule{{P: "PUBLISH", N: 1, O: "dropAck"}}})
+	obs := &pidObserver{}
+	w.OnClientPacket = obs.hook
+	ctx, cancel := context.WithTimeout(context.Background(), 20*time.Second)
+	defer cancel()
+	cli, err := pidConnect(ctx, w, sc.start())
+	if err != nil {
+		res.Infra = "connect: " + err.Error()
+		return
+	}
+	defer cli.Close()
+	sup := 0
+	if len(sc.Script) > 0 {
+		sup = sc.Script[0].Sup
+	}
+	m := &mqtt.Message{Topic: "p", QoS: mqtt.QoS(sc.AckEvery), Payload: netsim.PayloadOf(1), ID: uint16(sup)}
+	c1, cancel1 := context.WithTimeout(ctx, 30*time.Millisecond)
+	err = cli.Publish(c1, m)
+	cancel1()
+	if err == nil {
+		res.Infra = "the first transmission was acknowledged although its acknowledgement is withheld"
+		return
+	}
+	row := func(before int, from int) [3]int {
+		obs.mu.Lock()
+		defer obs.mu.Unlock()
+		r := [3]int{before, -1, 0}
+		for _, x := range obs.wire[from:] {
+			if x.typ == 0x60 {
+				r[2] = x.id
+			} else if r[1] == -1 {
+				r[1] = x.id
+			}
+		}
+		return r
+	}
+	r1 := row(sup, 0)
+	if r1[1] == -1 {
+		res.Infra = "first PUBLISH not seen"
+		return
+	}
+	res.Reqs = append(res.Reqs, r1)
+	res.After = append(res.After, int(m.ID))
+	before := int(m.ID)
+	obs.mu.Lock()
+	from := len(obs.wire)
+	obs.mu.Unlock()
+	if sc.Via == "republish" {
+		err = cli.Publish(ctx, m)
+	} else {
+		var er mqtt.ErrorWithRetry
+		if !errors.As(err, &er) {
+			res.Infra = "no retry handle: " + err.Error()
+			return
+		}
+		err = er.Retry(ctx, cli)
+	}
+	if err != nil {
+		res.Infra = "second transmission failed: " + err.Error()
+		return
+	}
+	r2 := row(before, from)
+	if r2[1] == -1 {
+		res.Infra = "second PUBLISH not seen"
+		return
+	}
+	if sc.AckEvery == 2 && r2[2] == 0 {
+		r2[2] = -1
+	}
+	res.Reqs = append(res.Reqs, r2)
+	res.After = append(res.After, int(m.ID))
 }
 
 func pidChurn(sc *pidScenario, res *pidResult) {
